@@ -184,6 +184,10 @@ def cycle(task):
         try:
             doc.save(p1)
             d_after_save = dump(doc, False)
+            # the same opened Document saved a second time without edits (backup copy / autosave / retry after a failed save)
+            p1b = os.path.join(tmp, "one-b.numbers")
+            doc.save(p1b)
+            d1b = dump(Document(p1b), touch)
             doc1 = Document(p1)
             d1 = dump(doc1, touch)
             doc1.save(p2)
@@ -192,6 +196,7 @@ def cycle(task):
             sub.violation(f"resave-raises-{exc_name(e)}:{name}", f"{name}: open/save cycle raised {exc_name(e)}: {str(e)[:160]}", inp)
             return common.sub_result(sub, None)
         for label, a, b, sig in (("first save/open", d0, d1, "resave-changes-what-is-read"),
+                                 ("second save of the same opened document", d0, d1b, "second-save-of-same-document-changes-what-is-read"),
                                  ("second save/open", d1, d2, "second-cycle-changes-what-is-read"),
                                  ("open document after save", d0, d_after_save, "save-changes-open-document")):
             diff = first_diff(a, b)
@@ -253,8 +258,17 @@ def string_table_correspondence(ctx: Ctx):
         texts = [rng.choice(pool) for _ in range(rng.randrange(0, 14))]
         model.init_table_strings(tid)
         keys = [model.table_string_key(tid, s) for s in texts]
-        back = [model._table_strings.lookup_value(tid, k).string for k in keys]  # table_string() itself is memoised
-        entries = [(e.key, e.string) for e in model._table_strings._datalists[tid]["datalist"].entries]
+        try:
+            back = [model._table_strings.lookup_value(tid, k).string for k in keys]  # table_string() itself is memoised
+        except Exception as e:  # noqa: BLE001  a key handed out for a text that is not in the list the save is about to write
+            ctx.violation("string-key-does-not-read-back", f"after init_table_strings, table_string_key gave keys {keys} for {texts!r} "
+                          f"but looking a key up raises {exc_name(e)}: {e} (history {h} of one model: keys of earlier saves leak)",
+                          {"texts": texts, "history": h})
+            break
+        try:
+            entries = [(e.key, e.string) for e in model._table_strings._datalists[tid]["datalist"].entries]
+        except Exception:  # noqa: BLE001  (internal shape of DataLists: the model line is only compared while it is there)
+            continue
         req.append("strtab intern " + str(len(texts)) + " " + " ".join(enc_text(s) for s in texts))
         out.append("ok " + " ".join(map(str, keys)) + " | " + " ".join(f"{k}:{enc_text(s)}" for k, s in entries))
         if back != texts:
